@@ -344,13 +344,14 @@ func Reach(from *ssa.BasicBlock, blockedB map[*ssa.BasicBlock]bool, blockedE map
 	if blockedB[from] {
 		return seen
 	}
+	infeasible := infeasibleEdges(from.Parent())
 	stack := []*ssa.BasicBlock{from}
 	seen[from] = true
 	for len(stack) > 0 {
 		b := stack[len(stack)-1]
 		stack = stack[:len(stack)-1]
 		for _, s := range b.Succs {
-			if seen[s] || blockedB[s] || blockedE[Edge{b, s}] {
+			if seen[s] || blockedB[s] || blockedE[Edge{b, s}] || infeasible[Edge{b, s}] {
 				continue
 			}
 			seen[s] = true
@@ -358,6 +359,101 @@ func Reach(from *ssa.BasicBlock, blockedB map[*ssa.BasicBlock]bool, blockedE map
 		}
 	}
 	return seen
+}
+
+var infeasibleCache = map[*ssa.Function]map[Edge]bool{}
+
+// infeasibleEdges: an edge of `if c` is infeasible when a structurally identical condition (same
+// operator on the same SSA operands) was already decided the other way on every path to the block.
+// Only comparisons whose operands are SSA values defined before the deciding branch qualify, so
+// the two evaluations necessarily agree.
+func infeasibleEdges(fn *ssa.Function) map[Edge]bool {
+	if fn == nil {
+		return nil
+	}
+	if m, ok := infeasibleCache[fn]; ok {
+		return m
+	}
+	m := map[Edge]bool{}
+	infeasibleCache[fn] = m // also guards against re-entrance through EdgeDominates -> Reach
+	type ifc struct {
+		b    *ssa.BasicBlock
+		cond *ssa.BinOp
+	}
+	var ifs []ifc
+	for _, b := range fn.Blocks {
+		if len(b.Instrs) == 0 || len(b.Succs) != 2 || b.Succs[0] == b.Succs[1] {
+			continue
+		}
+		if iff, ok := b.Instrs[len(b.Instrs)-1].(*ssa.If); ok {
+			if bo, isBo := iff.Cond.(*ssa.BinOp); isBo {
+				ifs = append(ifs, ifc{b, bo})
+			}
+		}
+	}
+	sameCond := func(a, b *ssa.BinOp) bool {
+		if a == b || a.Op != b.Op {
+			return false
+		}
+		eq := func(x, y ssa.Value) bool {
+			if x == y {
+				return true
+			}
+			cx, okx := x.(*ssa.Const)
+			cy, oky := y.(*ssa.Const)
+			if okx && oky {
+				if cx.Value == nil || cy.Value == nil {
+					return cx.Value == nil && cy.Value == nil
+				}
+				return cx.Value.ExactString() == cy.Value.ExactString()
+			}
+			return false
+		}
+		stable := func(v ssa.Value) bool {
+			switch v.(type) {
+			case *ssa.Const, *ssa.Parameter, *ssa.Call, *ssa.Extract, *ssa.Phi, *ssa.TypeAssert, *ssa.MakeInterface:
+				return true // SSA values: evaluated once
+			}
+			return false
+		}
+		return eq(a.X, b.X) && eq(a.Y, b.Y) && stable(a.X) && stable(a.Y)
+	}
+	for _, later := range ifs {
+		for _, earlier := range ifs {
+			if earlier.b == later.b || !sameCond(earlier.cond, later.cond) || !earlier.b.Dominates(later.b) {
+				continue
+			}
+			for i := 0; i < 2; i++ {
+				// is later.b reachable only through earlier's edge i? (plain reachability, no pruning: m is still empty for fn)
+				if edgeDominatesPlain(earlier.b, earlier.b.Succs[i], later.b) {
+					// condition has outcome (i==0) at later.b: the other edge is infeasible
+					m[Edge{later.b, later.b.Succs[1-i]}] = true
+				}
+			}
+		}
+	}
+	return m
+}
+
+func edgeDominatesPlain(from, to, x *ssa.BasicBlock) bool {
+	fn := from.Parent()
+	if x == fn.Blocks[0] {
+		return false
+	}
+	seen := map[*ssa.BasicBlock]bool{fn.Blocks[0]: true}
+	stack := []*ssa.BasicBlock{fn.Blocks[0]}
+	for len(stack) > 0 {
+		b := stack[len(stack)-1]
+		stack = stack[:len(stack)-1]
+		for _, s := range b.Succs {
+			if seen[s] || (b == from && s == to) {
+				continue
+			}
+			seen[s] = true
+			stack = append(stack, s)
+		}
+	}
+	return !seen[x]
 }
 
 // IndexIn returns the index of in within its block.
